@@ -64,8 +64,8 @@ Proof. exact evict_sound. Qed.
    and a CommandWaker marks itself woken first - so after a Pending poll the cell still holds this poll's waker
    (a clone survives) or the waker was woken, and the eviction rule answers Suspended.  What IS evicted is
    blocked on one-shot requests whose sender is gone, and on nothing else.  The one assumption is the ORDER
-   invariant of the heap (a task only hosts commands created after its own command: nobody polls a hosted
-   command except its host); it is proved to hold at the start of every run and to be preserved by every
+   invariant of the heap (a task only hosts commands created after its own command, and a command's cell only holds
+   a waker of a command created earlier: nobody polls a hosted command except its host); it is proved to hold at the start of every run and to be preserved by every
    action of the host and every step of the runtime, for every program, schedule and fuel. *)
 From Crux Require Rt.EvictHost.
 Theorem C07_evict_sound : forall fuel cid slot H H',
@@ -73,7 +73,7 @@ Theorem C07_evict_sound : forall fuel cid slot H H',
   exists t, slab_get slot (gcmd cid H') = Some t /\ EvictHost.evictable_strict (t_fs t).
 Proof. exact EvictHost.evict_sound_full. Qed.
 Theorem C07_hosting_poll_keeps_its_waker_registered : forall fuel c w fs H fs' H' x me mv k,
-  c < length (cmds H) -> EvictHost.host_gt c fs -> EvictHost.OrdH H ->
+  c < length (cmds H) -> EvictHost.host_gt c fs -> EvictHost.waker_in c w -> EvictHost.OrdH H ->
   poll fuel c w fs H = Some (Pend fs', H') -> f_leaf fs' = LHost x me mv k ->
   c < x /\ (c_atomic (gcmd x H') = Some w \/ woken_of w H') /\ EvictHost.OrdH H'.
 Proof. exact EvictHost.poll_registers_host. Qed.
